@@ -76,6 +76,7 @@ type obsT struct {
 	Streams     int                 `json:"streams"`
 	Stable      bool                `json:"stable"` // both registered each other and see each other at the end
 	ShutDown    map[string]bool     `json:"shutDown"`
+	UserReg     map[string]bool     `json:"userReg"` // the user's last word for the peer's SKI was Register
 	Sent        map[string][]string `json:"sent"`
 }
 
@@ -228,7 +229,48 @@ type node struct {
 	discs    int
 	shipIDs  int
 	nsent    int
+	gen      int
 }
+
+// gate is the HubReaderInterface of one incarnation of a hub
+type gate struct {
+	n   *node
+	gen int
+}
+
+func (g *gate) live() bool { g.n.mu.Lock(); defer g.n.mu.Unlock(); return g.gen == g.n.gen }
+func (g *gate) RemoteSKIConnected(ski string) {
+	if g.live() {
+		g.n.RemoteSKIConnected(ski)
+	}
+}
+func (g *gate) RemoteSKIDisconnected(ski string) {
+	if g.live() {
+		g.n.RemoteSKIDisconnected(ski)
+	}
+}
+func (g *gate) SetupRemoteDevice(ski string, w api.ShipConnectionDataWriterInterface) api.ShipConnectionDataReaderInterface {
+	if g.live() {
+		return g.n.SetupRemoteDevice(ski, w)
+	}
+	return nullReader{}
+}
+
+type nullReader struct{}
+
+func (nullReader) HandleShipPayloadMessage([]byte) {}
+func (g *gate) VisibleRemoteServicesUpdated(e []api.RemoteService) {}
+func (g *gate) ServiceShipIDUpdate(ski string, id string) {
+	if g.live() {
+		g.n.ServiceShipIDUpdate(ski, id)
+	}
+}
+func (g *gate) ServicePairingDetailUpdate(ski string, d *api.ConnectionStateDetail) {
+	if g.live() {
+		g.n.ServicePairingDetailUpdate(ski, d)
+	}
+}
+func (g *gate) AllowWaitingForTrust(ski string) bool { return g.n.AllowWaitingForTrust(ski) }
 
 var csNames = []string{"None", "Queued", "Initiated", "ReceivedPairingRequest", "InProgress", "Trusted", "Pin", "Completed", "RemoteDeniedTrust", "Error"}
 
@@ -324,11 +366,15 @@ func (e *ether) deliver(to, from *node, remove bool) {
 	e.mu.Lock()
 	txt := e.txt[from.name]
 	burst := e.burst
+	mgr := to.mgr
 	e.mu.Unlock()
-	if to.mgr == nil {
+	if mgr == nil {
 		return
 	}
-	cb := to.mgr.VerifResolveCB()
+	cb := mgr.VerifResolveCB()
+	if cb == nil {
+		return
+	}
 	if remove {
 		cb(mdns.VerifParseTxt([]string{"txtvers=1", "id=" + from.name, "path=/ship/", "ski=" + from.ski, "register=false"}), from.name, "host-"+from.name, nil, -1, true)
 		return
@@ -380,17 +426,30 @@ func runScript(s scriptT) obsT {
 	certs := map[string]tls.Certificate{"A": cA, "B": cB}
 	skis := map[string]string{"A": sA, "B": sB}
 	shut := map[string]bool{"A": false, "B": false}
+	ports := map[string]int{}
+	build := func(n *node) {
+		name := n.name
+		mgr := mdns.NewMDNS(n.ski, "brand", "model", "type", "serial-"+name, []api.DeviceCategoryType{1}, "shipid-"+name, "service-"+name, ports[name], nil, mdns.MdnsProviderSelectionAll)
+		eth.mu.Lock()
+		n.mgr = mgr
+		eth.mu.Unlock()
+		local := api.NewServiceDetails(n.ski)
+		local.SetShipID("shipid-" + name)
+		n.mu.Lock()
+		n.gen++
+		g := n.gen
+		n.mu.Unlock()
+		// callbacks of an earlier incarnation (goroutines that outlive its Shutdown) do not reach the restarted application
+		n.h = hub.NewHub(&gate{n: n, gen: g}, &mdnsAdapter{m: mgr, p: n.prov}, ports[name], certs[name], local)
+	}
 	for _, name := range []string{"A", "B"} {
 		n := &node{name: name, ski: skis[name], l: l, eth: eth}
-		port := freePort()
-		n.px = newProxy(fmt.Sprintf("127.0.0.1:%d", port))
+		ports[name] = freePort()
+		n.px = newProxy(fmt.Sprintf("127.0.0.1:%d", ports[name]))
 		hn := name
 		n.px.onOpen = func() { l.add(hn, "StreamOpen", "") } // a stream towards hub hn: its peer dialled
 		n.prov = &provider{n: n}
-		n.mgr = mdns.NewMDNS(n.ski, "brand", "model", "type", "serial-"+name, []api.DeviceCategoryType{1}, "shipid-"+name, "service-"+name, port, nil, mdns.MdnsProviderSelectionAll)
-		local := api.NewServiceDetails(n.ski)
-		local.SetShipID("shipid-" + name)
-		n.h = hub.NewHub(n, &mdnsAdapter{m: n.mgr, p: n.prov}, port, certs[name], local)
+		build(n)
 		eth.nodes[name] = n
 	}
 	for _, name := range []string{"A", "B"} {
@@ -445,7 +504,32 @@ func runScript(s scriptT) obsT {
 			l.add(op.H, "OpShutdown", "")
 			n.h.Shutdown()
 			shut[op.H] = true
+			eth.mu.Lock()
+			eth.visible[other[op.H]] = false // the peer cannot see a hub that is down
+			eth.mu.Unlock()
 			l.add(op.H, "OpShutdownEnd", "")
+		case "Restart":
+			// the device restarts: hub, mDNS manager and application state are new, identity (certificate, port) and the user's
+			// pairing decisions are the same
+			l.add(op.H, "OpRestart", "")
+			n.h.Shutdown()
+			n.mu.Lock()
+			n.lastWord, n.lastNote = "", ""
+			n.writer, n.writers = nil, nil
+			n.mu.Unlock()
+			build(n)
+			n.h.Start()
+			time.Sleep(60 * time.Millisecond) // server listening
+			if registered[op.H] {
+				n.h.RegisterRemoteSKI(skis[other[op.H]])
+			}
+			eth.mu.Lock()
+			sees := eth.visible[op.H]
+			eth.mu.Unlock()
+			if sees {
+				eth.deliver(n, eth.nodes[other[op.H]], false)
+			}
+			l.add(op.H, "OpRestartEnd", "")
 		case "Sleep":
 			time.Sleep(time.Duration(op.Ms) * time.Millisecond)
 		case "Settle":
@@ -461,7 +545,15 @@ func runScript(s scriptT) obsT {
 			if c, ok := n.h.VerifRegistry()[skis[other[name]]]; ok {
 				if st, _ := c.ShipHandshakeState(); st != model.SmeStateComplete && st != model.SmeStateError &&
 					st != model.SmeHelloStatePendingListen {
-					busy = true
+					// waiting for the peer's user is a stable point as well
+					peerPending := false
+					if pc, ok := eth.nodes[other[name]].h.VerifRegistry()[skis[name]]; ok {
+						pst, _ := pc.ShipHandshakeState()
+						peerPending = pst == model.SmeHelloStatePendingListen
+					}
+					if !(st == model.SmeHelloStateReadyListen && peerPending) {
+						busy = true
+					}
 				}
 			}
 		}
@@ -471,7 +563,8 @@ func runScript(s scriptT) obsT {
 		time.Sleep(2 * time.Second)
 	}
 	l.add("", "Quiesced", "")
-	o := obsT{ID: s.ID, Script: s, Hubs: map[string]hubObs{}, ShutDown: shut, Sent: map[string][]string{}}
+	o := obsT{ID: s.ID, Script: s, Hubs: map[string]hubObs{}, ShutDown: shut, Sent: map[string][]string{},
+		UserReg: map[string]bool{"A": registered["A"], "B": registered["B"]}}
 	// echo: whatever each application writes now must arrive at the other one
 	before := map[string]int{}
 	for name, n := range eth.nodes {
